@@ -235,6 +235,11 @@ def apply(spec, tg, n, core=False):
         a["end"] = _day(spec, 1, "-17:00")
         spec["tasks"].append({"id": "os", "effort": 120, "alloc": ["r4"], "prio": 400, "deps": [{"ref": "A", "onstart": True}]})
         spec["tasks"].append({"id": "oe", "effort": 60, "alloc": ["r3"], "prio": 400, "deps": [{"ref": "A"}]})
+        # a container that holds nothing but DATED milestones (it is complete before any work is placed) and a high-priority task
+        # that waits for it, competing with lower-priority work for r4
+        spec["tasks"].append({"id": "K", "children": [{"id": "k1", "milestone": True, "start": _day(spec, 0, "-10:00")},
+                                                       {"id": "k2", "milestone": True, "start": _day(spec, 0, "-11:00")}]})
+        spec["tasks"].append({"id": "hiK", "effort": 240, "alloc": ["r4"], "prio": 800, "deps": [{"ref": "K"}]})
     elif tg == "rev":
         spec["tasks"].reverse()   # dependents are declared before what they wait for (ties: declaration order)
     elif tg == "deep":
